@@ -104,7 +104,15 @@ func runReal(input string) string {
 	}
 	var prs []*poolRun
 	var conf engine.Config
-	for j := 0; j < npools; j++ {
+	if m["cfg"] != "" {
+		// the pools are written as YAML text and decoded by the real config reader (cfgroute.go)
+		var err error
+		prs, conf, err = cfgPools(m, npools)
+		if err != nil {
+			return "res=err:config:" + strings.ReplaceAll(drv.Trunc(drv.Clean(err.Error()), 200), " ", "_")
+		}
+	}
+	for j := 0; j < npools && m["cfg"] == ""; j++ {
 		j := j
 		get := func(k string) string { // `key.j` overrides `key` for pool j
 			if v, ok := m[k+"."+itoa(j)]; ok {
@@ -120,16 +128,38 @@ func runReal(input string) string {
 		conf.Pools = append(conf.Pools, pr.conf)
 	}
 	rec := prs[0].rec
+	if m["race"] == "1" {
+		// race-detector runs: the real operations are performed OUTSIDE the recorder's mutex (which would order them and
+		// hide every data race of the code under test); the log is then not in operation order and only counted
+		if m["ctl"] != "" {
+			return "res=noinstr why=race-excludes-ctl"
+		}
+		for _, pr := range prs {
+			pr.rec.loose = true
+		}
+	}
 	var c *ctl
 	if m["fine"] == "1" {
 		// scheduling points inside Next / Left exist for the leaf profiles only (a composite holds its lock around them)
 		leaf := m["sched"] == "" || m["sched"] == "once" || m["sched"] == "const" || m["sched"] == "line" || strings.HasPrefix(m["sched"], "paced")
+		if m["rpsy"] == "split" { // a list of two parts is a composite
+			leaf = false
+		}
 		if !leaf || npools != 1 || m["ctl"] == "" {
 			return "res=noinstr why=fine-needs-one-pool-leaf-profile-ctl"
 		}
 	}
-	if spec := m["ctl"]; spec != "" && npools == 1 {
-		cap := prs[0].cap
+	if npools > 1 && (m["sctl"] == "1" || m["fine"] == "1") {
+		return "res=noinstr why=sctl-and-fine-need-one-pool"
+	}
+	if spec := m["ctl"]; spec != "" {
+		// several pools: ONE controller for the instances of all pools (they share the lock and the numbering of the
+		// goroutines; each pool keeps its own log)
+		cap := 0
+		for _, pr := range prs {
+			cap += pr.cap
+			pr.rec.mu, pr.rec.tids = rec.mu, rec.tids
+		}
 		c = &ctl{r: rec, wake: make(chan struct{}, 1), parked: map[int]chan struct{}{}, resting: map[int]bool{},
 			started: func() int { return int(metrics.InstanceStart.Get()) }, stop: make(chan struct{}),
 			wait: 300 * time.Microsecond, firstWait: 20 * time.Millisecond, last: -1,
@@ -187,7 +217,9 @@ func runReal(input string) string {
 				}
 			}
 		}
-		rec.ctl = c
+		for _, pr := range prs {
+			pr.rec.ctl = c
+		}
 		if c.fine {
 			verifhook.Yield = rec.yield
 			defer func() { verifhook.Yield = nil }()
@@ -204,10 +236,16 @@ func runReal(input string) string {
 	if c != nil {
 		// controlled runs use instantaneous profiles of a few tokens: (tokens + instances) iterations of at most 7 logged
 		// operations each is all a pool can do
-		rec.maxEvs = 64*(atoi(m["tokens"])*prs[0].cap+prs[0].cap+4) + 256
-		rec.onRunaway = func() {
-			c.halt()
-			cancel()
+		for j, pr := range prs {
+			tk := atoi(m["tokens"])
+			if v, ok := m["tokens."+itoa(j)]; ok {
+				tk = atoi(v)
+			}
+			pr.rec.maxEvs = 64*(tk*pr.cap+pr.cap+4) + 256
+			pr.rec.onRunaway = func() {
+				c.halt()
+				cancel()
+			}
 		}
 	}
 	err := eng.Run(ctx)
@@ -220,8 +258,10 @@ func runReal(input string) string {
 		res = "err:" + strings.ReplaceAll(drv.Clean(err.Error()), " ", "_")
 	}
 	rec.mu.Lock()
-	if rec.runaway {
-		res = "runaway"
+	for _, pr := range prs {
+		if pr.rec.runaway {
+			res = "runaway"
+		}
 	}
 	rec.mu.Unlock()
 	b := func(x bool) int {
@@ -471,6 +511,97 @@ func gen(r *rand.Rand, tier string) []string {
 				l += fmt.Sprintf(" start.%d=ramp%d sched.%d=%s", j, pick(r, 1, 3), j, pick(r, kinds...))
 			}
 		}
+		if i%2 == 1 { // one controller interleaves the instances of all pools
+			l += fmt.Sprintf(" ctl=rand:%d:%d", r.Intn(1000000), r.Intn(3))
+		}
+		out = append(out, l)
+	}
+
+	// 7. the pool written as YAML TEXT and read by the real config reader (cfgroute.go): both routes x every spelling of
+	//    the profile x shared / per-instance x instance count, everything else random.  What the engine must do does not
+	//    depend on the route or the spelling.
+	spellings := []string{"map", "list", "block", "nest", "split"}
+	reps = 2
+	cinsts := []int{1, 2, 3}
+	if thorough {
+		reps = 30
+		cinsts = []int{1, 2, 3, 5, 9}
+	}
+	for rep := 0; rep < reps; rep++ {
+		for _, route := range []string{"cli", "yaml2"} {
+			for _, sp := range spellings {
+				for _, shared := range []int{0, 1} {
+					for _, inst := range cinsts {
+						kind := pick(r, kinds...)
+						if sp == "split" {
+							kind = "once"
+						}
+						extra := fmt.Sprintf("cfg=%s rpsy=%s prov=%s aggr=%s", route, sp, pick(r, provs...), pick(r, aggrs...))
+						if r.Intn(3) == 0 {
+							extra += " stay=" + pick(r, "list", "block", "nest")
+						}
+						if r.Intn(4) == 0 {
+							extra += " start=ramp" + itoa(pick(r, 1, 2, 5))
+						}
+						if r.Intn(5) == 0 && route == "cli" {
+							extra += " fold=1"
+						}
+						leaf := kind == "once" && sp != "split"
+						switch r.Intn(4) {
+						case 0:
+							extra += fmt.Sprintf(" ctl=rand:%d:%d", r.Intn(1000000), r.Intn(3))
+							if leaf && r.Intn(2) == 0 {
+								extra += " fine=1"
+							}
+						}
+						tokens := 1 + r.Intn(9)
+						disc := r.Intn(3)
+						l := line(inst, shared, tokens, pick(r, -1, -1, r.Intn(12), tokens, inst*tokens), disc%2, pick(r, 0, 0, 1, 3), pick(r, 0, 0, 30), kind, extra)
+						if disc == 2 {
+							l = strings.Replace(l, " discard=0 ", " discard=absent ", 1)
+						}
+						out = append(out, l)
+					}
+				}
+			}
+		}
+	}
+	// 7b. engines with several pools read from one configuration text
+	n = 16
+	if thorough {
+		n = 600
+	}
+	for i := 0; i < n; i++ {
+		np := 2 + r.Intn(2)
+		l := line(1+r.Intn(4), r.Intn(2), r.Intn(10), pick(r, -1, r.Intn(15)), r.Intn(2), r.Intn(4), pick(r, 0, 20), pick(r, kinds...),
+			fmt.Sprintf("pools=%d cfg=%s rpsy=%s prov=%s aggr=%s", np, pick(r, "cli", "yaml2"), pick(r, "map", "list", "block", "nest"), pick(r, provs...), pick(r, aggrs...)))
+		for j := 1; j < np; j++ {
+			l += fmt.Sprintf(" shared.%d=%d tokens.%d=%d ammo.%d=%d inst.%d=%d discard.%d=%d rpsy.%d=%s", j, r.Intn(2), j, r.Intn(10), j, pick(r, -1, r.Intn(15)),
+				j, 1+r.Intn(4), j, r.Intn(2), j, pick(r, "map", "list", "block", "nest"))
+		}
+		out = append(out, l)
+	}
+
+	// 8. the same engine on a worker built with the race detector (instr.go): uncontrolled runs of several instances
+	//    spinning on a shared or an own profile; the real operations are performed outside the recorder's mutex, a data
+	//    race in the engine / schedule / provider / aggregator code stops the worker and fails the case
+	n = 70
+	if thorough {
+		n = 1500
+	}
+	for i := 0; i < n; i++ {
+		extra := fmt.Sprintf("race=1 prov=%s aggr=%s", pick(r, "json", "num", "jsonlimit", "mock"), pick(r, aggrs...))
+		switch r.Intn(4) {
+		case 0:
+			extra += " cfg=" + pick(r, "cli", "yaml2") + " rpsy=" + pick(r, "map", "list", "nest")
+		case 1:
+			extra += " start=ramp" + itoa(pick(r, 1, 2))
+		}
+		tokens := 10 + r.Intn(50)
+		l := line(2+r.Intn(7), r.Intn(2), tokens, pick(r, -1, -1, tokens/2, 3*tokens), r.Intn(2), pick(r, 0, 0, 3, 7), pick(r, 0, 0, 0, 20), pick(r, kinds...), extra)
+		if i%8 == 0 {
+			l += fmt.Sprintf(" pools=2 shared.1=%d tokens.1=%d ammo.1=-1 inst.1=%d discard.1=0", r.Intn(2), 5+r.Intn(20), 2+r.Intn(3))
+		}
 		out = append(out, l)
 	}
 
@@ -519,6 +650,11 @@ func gen(r *rand.Rand, tier string) []string {
 		bases = append(bases, line(2, 0, 1, -1, 0, 0, 0, "once", "fine=1"), line(2, 1, 0, -1, 0, 0, 0, "once", "fine=1"),
 			line(2, 1, 2, -1, 1, 2, 0, "once", "fine=1"), line(3, 1, 1, -1, 0, 0, 0, "once", "fine=1"), line(3, 1, 1, 2, 0, 0, 0, "once", "fine=1"))
 	}
+	// 5c. … and of pools built by the real config reader from a profile written as a list
+	bases = append(bases, line(2, 0, 1, 1, 0, 0, 0, "once", "cfg=cli rpsy=list"), line(2, 0, 1, -1, 1, 1, 0, "once", "cfg=yaml2 rpsy=list"))
+	if thorough {
+		bases = append(bases, line(2, 1, 1, 1, 0, 0, 0, "once", "cfg=cli rpsy=block fine=1"), line(2, 0, 2, -1, 0, 0, 0, "once", "cfg=cli rpsy=split"))
+	}
 	out = append(out, dfsAll(bases, maxRuns)...)
 
 	// 6. preemption-bounded enumeration (every schedule that runs each instance on until it ends, except for at most
@@ -538,16 +674,23 @@ func gen(r *rand.Rand, tier string) []string {
 		}
 	} else {
 		pbBases = append(pbBases, line(3, 1, 2, -1, 0, 0, 0, "once", ""), line(3, 0, 2, 3, 1, 2, 0, "once", ""),
-			line(3, 1, 1, -1, 0, 0, 0, "once", "fine=1"), line(3, 1, 2, 2, 0, 0, 0, "once", "sctl=1"))
+			line(3, 1, 1, -1, 0, 0, 0, "once", "fine=1"), line(3, 1, 2, 2, 0, 0, 0, "once", "sctl=1"),
+			line(3, 0, 2, 4, 0, 0, 0, "once", "cfg=cli rpsy=list"),
+			line(2, 1, 1, -1, 0, 0, 0, "once", "pools=2 shared.1=0 tokens.1=1 ammo.1=2 inst.1=2 discard.1=0"))
 	}
 	if thorough {
 		pbBases = append(pbBases, line(3, 1, 2, -1, 0, 0, 0, "once", "fine=1"), line(4, 1, 1, 3, 0, 0, 0, "once", "fine=1"),
-			line(3, 0, 2, 3, 1, 2, 0, "once", "fine=1"))
+			line(3, 0, 2, 3, 1, 2, 0, "once", "fine=1"),
+			line(2, 1, 2, 3, 1, 2, 0, "once", "pools=2 shared.1=0 tokens.1=2 ammo.1=-1 inst.1=2 discard.1=0 aggr=phout"),
+			line(2, 0, 1, -1, 0, 0, 0, "once", "pools=3 shared.1=1 tokens.1=2 ammo.1=1 inst.1=2 discard.1=0 shared.2=1 tokens.2=1 ammo.2=-1 inst.2=1 discard.2=0 cfg=cli rpsy=list"))
 	}
 	for _, b := range pbBases {
 		base := execute(b + " ctl=pb:")
 		steps := len(drv.KV(base)["br"])/2 + 6
 		others := atoi(drv.KV(b)["inst"]) - 1
+		for j := 1; j < atoi(drv.KV(b)["pools"]); j++ {
+			others += atoi(drv.KV(b)["inst."+itoa(j)])
+		}
 		if drv.KV(b)["sctl"] == "1" {
 			others++
 		}
@@ -608,7 +751,11 @@ func main() {
 			drv.RepoDir = strings.TrimPrefix(a, "repo=")
 		}
 	}
+	var built sync.WaitGroup
+	built.Add(1)
+	go func() { defer built.Done(); raceWorker() }()
 	instrumentedWorker()
+	built.Wait()
 	drv.Main(&drv.Prop{
 		ID: "C03", Gen: gen, Run: run, Workers: 10, Timeout: 60 * time.Second,
 		Class: func(in, obs string) string {
@@ -618,7 +765,14 @@ func main() {
 				if o["log.0"] == "" && o["log.1"] == "" {
 					return ""
 				}
-				return fmt.Sprintf("engine-with-%d-pools", np)
+				c := fmt.Sprintf("engine-with-%d-pools", np)
+				if m["ctl"] != "" {
+					c += "/controlled"
+				}
+				if m["cfg"] != "" {
+					c += "/cfg-" + m["cfg"]
+				}
+				return c
 			}
 			if o["log"] == "" {
 				return ""
@@ -647,6 +801,15 @@ func main() {
 			if p := m["prov"]; (p != "" && p != "mock") || m["aggr"] == "phout" {
 				how += "+real"
 			}
+			if m["race"] == "1" {
+				how += "+race-detector"
+			}
+			if m["cfg"] != "" {
+				how += "+cfg-" + m["cfg"]
+				if sp := m["rpsy"]; sp != "" && sp != "map" {
+					how += "-list"
+				}
+			}
 			what := "fired"
 			switch {
 			case m["panic"] != "" && !strings.HasPrefix(obs, "res=ok"):
@@ -663,6 +826,6 @@ func main() {
 			c += "/" + how + "/" + what
 			return c
 		},
-		Rule: "real engine.Engine, one pool (some engines with 2-3 pools sharing the counters): matrix instances x shared/per-instance x tokens x ammo bound x discard_overflow with random profile shape (once/const/composite/line/step), overdue tokens, shot duration, startup (once/ramp), provider (mock/real JSON DecodeProvider+AmmoQueue/real Num) and aggregator (mock/real phout); random cells, some with a fault plan (the k-th Shoot panics); paced profiles with a startup ramp that is still running when ammo ends; seeded controlled scheduling (random/sticky/lock-step choice of the next instance operation), half of it with the goroutine that starts the instances as one more controlled participant (sctl); the same on a worker built from the same source with scheduling points inside the schedule's Next/Left (fine: an instance can be parked between the atomic operations of one call); exhaustive enumeration of all operation interleavings of 2-instance pools with <=1 token at both granularities and with the starter (larger ones up to a cap); all schedules with <=1 (quick) / <=2 (thorough) preemptions of 2-4 instance pools; non-trivial = at least one event logged; distinct input lines",
+		Rule: "real engine.Engine, one pool (some engines with 2-3 pools sharing the counters, half of them with one controller interleaving the instances of all pools): matrix instances x shared/per-instance x tokens x ammo bound x discard_overflow with random profile shape (once/const/composite/line/step), overdue tokens, shot duration, startup (once/ramp), provider (mock/real JSON DecodeProvider+AmmoQueue/real Num) and aggregator (mock/real phout); random cells, some with a fault plan (the k-th Shoot panics); paced profiles with a startup ramp that is still running when ammo ends; seeded controlled scheduling (random/sticky/lock-step choice of the next instance operation), half of it with the goroutine that starts the instances as one more controlled participant (sctl); the same on a worker built from the same source with scheduling points inside the schedule's Next/Left (fine: an instance can be parked between the atomic operations of one call); exhaustive enumeration of all operation interleavings of 2-instance pools with <=1 token at both granularities and with the starter (larger ones up to a cap); all schedules with <=1 (quick) / <=2 (thorough) preemptions of 2-4 instance pools; the same pools written as YAML text and read by the real config reader (cli.readConfig, or yaml.v2 + config.DecodeAndValidate) with the profile in every accepted spelling (mapping, list, block list, explicit composite, split list), the factories of the plugin registry, 1-3 pools; uncontrolled runs on a worker built with the race detector (real operations outside the recorder's mutex); non-trivial = at least one event logged; distinct input lines",
 	})
 }
